@@ -82,6 +82,26 @@ def prefix_ok(arr):
     return True
 
 
+def nan_equal_arrays(a, b):
+    a, b = numpy.asarray(a), numpy.asarray(b)
+    if a.shape != b.shape:
+        return False
+    if a.dtype.kind in 'fc' and b.dtype.kind in 'fc':
+        return bool(numpy.array_equal(a, b, equal_nan=True))
+    return bool(numpy.array_equal(a, b))
+
+
+def _perm(model, n):
+    """Deterministic pseudo-random touch order derived from the encoding (no extra rng stream needed)."""
+    import hashlib
+    h = hashlib.sha256(repr(sorted(model.encoding['supplied'])).encode() + repr(model.encoding['edge_flip']).encode()).digest()
+    order = list(range(n))
+    for i in range(n - 1, 0, -1):
+        j = h[i] % (i + 1)
+        order[i], order[j] = order[j], order[i]
+    return order
+
+
 def run(ctx):
     obs = ctx.obs
     obs.extra['meta'] = META
@@ -201,6 +221,17 @@ def _check(obs, model, mesh, ems, topo, supplied, e):
         return
 
     pairs_model = {frozenset(p) for p in mesh.edges}
+    # The tables are first touched in a random order (each derivation may pull in the others), and read again at the
+    # end: a supplied table must still be as given after other tables were derived from it, and the dataset itself
+    # must not have been modified.
+    names = ['edge_node_array', 'face_edge_array', 'edge_face_array', 'face_face_array']
+    snapshot = {str(k): numpy.array(v.values, copy=True) for k, v in ems.dataset.variables.items()}
+    order = [names[i] for i in _perm(model, len(names))]
+    for nm in order:
+        r = obs.call(nm + ' (first touch)', lambda nm=nm: getattr(topo, nm))
+        if isinstance(r, Failed):
+            return
+    first = {nm: rows_of(getattr(topo, nm)) for nm in names}
     # ---- edge-node ---------------------------------------------------------------------------------------------
     en = obs.call('edge_node_array', lambda: topo.edge_node_array)
     if isinstance(en, Failed):
@@ -275,6 +306,12 @@ def _check(obs, model, mesh, ems, topo, supplied, e):
         obs.expect(got == mesh.face_faces and sym and prefix_ok(ff),    # a neighbour may be listed once per shared edge
                    'derived face-face: symmetric, and adjacency means sharing an edge',
                    lambda: {'got': ff_rows[:8], 'want': [sorted(s) for s in mesh.face_faces[:8]]}, mech='derived-face-face')
+    # ---- stability: nothing changed behind our back -------------------------------------------------------------------
+    again = {nm: rows_of(getattr(topo, nm)) for nm in names}
+    obs.expect(again == first, 'normalised tables are stable: reading a table again after the others were derived gives the same rows',
+               lambda: {'changed': [nm for nm in names if again[nm] != first[nm]], 'touch order': order}, mech='table-mutated')
+    same_ds = all(nan_equal_arrays(snapshot[str(k)], v.values) for k, v in ems.dataset.variables.items())
+    obs.expect(same_ds, 'deriving topology tables does not modify the dataset', mech='dataset-mutated')
     if len(obs.samples) < 3 and len(supplied) in (1, 2):
         obs.sample({'mesh': {'faces': mesh.faces[:5], 'nedge': mesh.nedge}, 'supplied': sorted(supplied),
                     'face_node encoding': t['face_node'], 'edge_node_array[:4]': en_rows[:4], 'face_edge_array[:3]': fe_rows[:3],
